@@ -28,6 +28,8 @@ pub enum A {
     X0,
     F1,
     E2,
+    /// the executor runs the (so far starved) connection tasks of c0 and c1 again
+    TH,
 }
 
 struct World {
@@ -38,9 +40,13 @@ struct World {
     emitted: Vec<(u32, Option<usize>)>,
     closed_or_failed: [bool; 3],
     c2_attempt: usize,
+    conn_tasks: Vec<usize>,
 }
 
-fn setup(sched: bool) -> Result<World, String> {
+/// `backpressured`: start from a state in which the executor starves the tasks of c0 and c1 and
+/// their command channels are full (one event each: buffer size 1 means capacity 0 + 1 sender slot), so that the next event for them parks in
+/// the Swarm until `TH`.
+fn setup(sched: bool, backpressured: bool) -> Result<World, String> {
     ConnectionId::verif_reset_allocator(1);
     let log = Arc::new(Mutex::new(Vec::new()));
     let probe = Probe::new(0, log.clone(), DenyMask::default());
@@ -60,8 +66,27 @@ fn setup(sched: bool) -> Result<World, String> {
     if sys.swarm.network_info().connection_counters().num_established() != 2 {
         return Err("harness :: setup did not establish two connections".into());
     }
-    sys.explore_schedule = sched;
-    Ok(World { sys, cids: [cids[0], cids[1], cids[2]], next_n: 1, emitted: vec![], closed_or_failed: [false; 3], c2_attempt: 2 })
+    // tasks: 0 pending c0 (done), 1 established c0, 2 pending c1 (done), 3 established c1, 4 pending c2
+    if !(sys.tasks.is_done(0) && !sys.tasks.is_done(1) && sys.tasks.is_done(2) && !sys.tasks.is_done(3) && sys.tasks.live() == 3) {
+        return Err("harness :: unexpected task layout after setup".into());
+    }
+    let mut w = World { sys, cids: [cids[0], cids[1], cids[2]], next_n: 1, emitted: vec![], closed_or_failed: [false; 3], c2_attempt: 2, conn_tasks: vec![1, 3] };
+    if backpressured {
+        w.sys.frozen = w.conn_tasks.clone();
+        for a in [A::N0, A::N1] {
+            w.apply(a);
+            w.sys.run(1000);
+        }
+        // both must have been taken by the Swarm and none delivered yet
+        let log = w.sys.log.lock().unwrap();
+        let emits = log.iter().filter(|e| matches!(e, LogEv::Other { what, .. } if what.starts_with("emit "))).count();
+        let got = log.iter().filter(|e| matches!(e, LogEv::HandlerGot { .. })).count();
+        if emits != 2 || got != 0 {
+            return Err(format!("harness :: back-pressure set-up: {emits} emitted, {got} delivered"));
+        }
+    }
+    w.sys.explore_schedule = sched;
+    Ok(w)
 }
 
 impl World {
@@ -95,6 +120,9 @@ impl World {
             }
             A::E2 => {
                 self.sys.ctl.lock().unwrap().resolve_ok(self.c2_attempt, 1);
+            }
+            A::TH => {
+                self.sys.frozen.clear();
             }
         }
         self.sys.kick();
@@ -186,14 +214,20 @@ impl World {
     }
 }
 
-fn run_script(script: &[A], sched: bool) -> Result<(bool, String), String> {
-    let mut w = setup(sched)?;
+fn run_script(script: &[A], sched: bool, backpressured: bool) -> Result<(bool, String), String> {
+    let mut w = setup(sched, backpressured)?;
     let mut next = 0;
     let mut steps = 0;
     loop {
         let runnable = w.sys.has_runnable();
         let can_act = next < script.len();
         if !runnable && !can_act {
+            if !w.sys.frozen.is_empty() {
+                // end of script: the executor eventually runs every task
+                w.sys.frozen.clear();
+                w.sys.tasks.wake_all();
+                continue;
+            }
             break;
         }
         let act_now = if can_act && runnable && sched { choice::choose_l(2, 1, "act-early") == 1 } else { can_act && !runnable };
@@ -221,12 +255,12 @@ fn run_script(script: &[A], sched: bool) -> Result<(bool, String), String> {
     Ok(r)
 }
 
-fn scripts(max_len: usize) -> Vec<Vec<A>> {
-    let letters = [A::N0, A::N1, A::N2, A::NA, A::X0, A::F1, A::E2];
+fn scripts(max_len: usize, backpressured: bool) -> Vec<Vec<A>> {
+    let letters: Vec<A> = if backpressured { vec![A::N0, A::NA, A::X0, A::E2, A::TH] } else { vec![A::N0, A::N1, A::N2, A::NA, A::X0, A::F1, A::E2] };
     let mut v = Vec::new();
     mc::enumerate::sequences_upto(letters.len(), max_len, |idx| {
         let s: Vec<A> = idx.iter().map(|&i| letters[i]).collect();
-        for once in [A::X0, A::F1, A::E2] {
+        for once in [A::X0, A::F1, A::E2, A::TH] {
             if s.iter().filter(|a| **a == once).count() > 1 {
                 return;
             }
@@ -239,10 +273,10 @@ fn scripts(max_len: usize) -> Vec<Vec<A>> {
     v
 }
 
-fn body<'a>(script: &'a [A], nontrivial: &'a std::cell::Cell<bool>) -> impl FnMut(&mut Chooser) -> Result<(), String> + 'a {
+fn body<'a>(script: &'a [A], backpressured: bool, nontrivial: &'a std::cell::Cell<bool>) -> impl FnMut(&mut Chooser) -> Result<(), String> + 'a {
     move |ch: &mut Chooser| {
         choice::scoped(ch, || {
-            mc::catch(|| run_script(script, true)).unwrap_or_else(|p| Err(format!("panic at {} :: {p}", mc::shim::last_panic_loc().unwrap_or_default()))).map(|(nt, _)| {
+            mc::catch(|| run_script(script, true, backpressured)).unwrap_or_else(|p| Err(format!("panic at {} :: {p}", mc::shim::last_panic_loc().unwrap_or_default()))).map(|(nt, _)| {
                 if nt {
                     nontrivial.set(true)
                 }
@@ -258,23 +292,26 @@ pub fn run(ctx: &Ctx) -> Outcome {
         let script: Vec<A> = serde_json::from_value(case["script"].clone()).unwrap_or_default();
         let choices: Vec<u32> = serde_json::from_value(case["choices"].clone()).unwrap_or_default();
         let nt = std::cell::Cell::new(false);
-        if let Err(m) = choice::replay(&choices, body(&script, &nt)) {
+        let bp = case["backpressured"].as_bool().unwrap_or(false);
+        if let Err(m) = choice::replay(&choices, body(&script, bp, &nt)) {
             out.violation(mc::bfs::signature_of(&m), m, case.clone());
         }
         return out;
     }
-    let all = scripts(ctx.tier.pick(3, 4));
+    let mut all: Vec<(Vec<A>, bool)> = scripts(ctx.tier.pick(3, 4), false).into_iter().map(|s| (s, false)).collect();
+    all.extend(scripts(ctx.tier.pick(3, 4), true).into_iter().map(|s| (s, true)));
     let bound = ctx.tier.pick(2, 3);
     let mut o = mc::workers(ctx, 16, |ctx| {
         let mut out = Outcome::default();
-        for (i, s) in all.iter().enumerate() {
+        for (i, (s, bp)) in all.iter().enumerate() {
+            let bp = *bp;
             if !ctx.mine(i as u64) {
                 continue;
             }
             let nt = std::cell::Cell::new(false);
             let mut nt_execs = 0u64;
             let (st, viol) = {
-                let mut b = body(s, &nt);
+                let mut b = body(s, bp, &nt);
                 choice::explore(bound, 300_000, |ch| {
                     nt.set(false);
                     let r = b(ch);
@@ -286,19 +323,22 @@ pub fn run(ctx: &Ctx) -> Outcome {
             };
             out.add_explore(&st);
             out.count("scripts", 1);
+            if bp {
+                out.count("backpressured_scripts", 1);
+            }
             out.count("distinct_delivery_outcomes", st.distinct_obs);
             out.count("nontrivial_executions", nt_execs);
             for k in 0..nt_execs.min(20_000) {
-                out.nontrivial_h(mc::report::hash_str(&format!("{s:?}")) ^ k.wrapping_mul(0x9e3779b97f4a7c15));
+                out.nontrivial_h(mc::report::hash_str(&format!("{s:?}{bp}")) ^ k.wrapping_mul(0x9e3779b97f4a7c15));
             }
             if i % 53 == 0 {
-                out.sample(json!({"script": s, "executions": st.executions, "distinct_delivery_outcomes": st.distinct_obs}));
+                out.sample(json!({"script": s, "backpressured": bp, "executions": st.executions, "distinct_delivery_outcomes": st.distinct_obs}));
             }
             if let Some((choices, m)) = viol {
                 if m.starts_with("NONDETERMINISM") || m.starts_with("harness ::") {
                     out.machinery(format!("{m} script={s:?}"));
                 } else {
-                    out.violation(mc::bfs::signature_of(&m), format!("{m} in script {s:?} under schedule {choices:?}"), json!({"script": s, "choices": choices}));
+                    out.violation(mc::bfs::signature_of(&m), format!("{m} in script {s:?} (backpressured start: {bp}) under schedule {choices:?}"), json!({"script": s, "choices": choices, "backpressured": bp}));
                 }
             }
         }
